@@ -1,4 +1,5 @@
 // C16: TimeZone is a faithful value: save/restore through TimeZoneData, manual offsets, equality.
+#include <algorithm>
 #include "acetime_all.h"
 #include "verif.h"
 #include "civil.h"
@@ -72,6 +73,31 @@ void zones(const Args& a, Counters& c, Mgr& full, OtherMgr& other, const char* t
 }
 
 static volatile long g_sink16 = 0;
+// save / restore through managers whose registry holds the same zones in another order (by id ascending, by id
+// descending, names reversed): "a zone manager whose registry contains the zone" does not promise name order
+template <class Db, class Mgr> static void reorder_world(Counters& c, const char* flavour) {
+  typedef typename Db::Info ZI;
+  std::vector<const ZI*> base; for (int i = 0; i < Db::size(); i++) base.push_back(Db::info(i));
+  for (int order = 0; order < 3; order++) {
+    std::vector<const ZI*> reg = base;
+    if (order == 0) std::sort(reg.begin(), reg.end(), [](const ZI* x, const ZI* y) { return Db::id(x) < Db::id(y); });
+    else if (order == 1) std::sort(reg.begin(), reg.end(), [](const ZI* x, const ZI* y) { return Db::id(x) > Db::id(y); });
+    else std::reverse(reg.begin(), reg.end());
+    Mgr m((uint16_t)reg.size(), reg.data());
+    for (size_t i = 0; i < reg.size(); i++) {
+      journal("reordered-registry", order, (int)i);
+      TimeZone direct = m.createForZoneInfo(reg[i]);
+      TimeZoneData d = direct.toTimeZoneData();
+      TimeZone r = m.createForTimeZoneData(d), byid = m.createForZoneId(Db::id(reg[i])), byname = m.createForZoneName(Db::name(reg[i]));
+      if (r.isError() || !(r == direct) || r.getZoneId() != Db::id(reg[i]) || byid.isError() || !(byid == direct) || byname.isError() || !(byname == direct)
+          || m.indexForZoneId(Db::id(reg[i])) != i || m.indexForZoneName(Db::name(reg[i])) != i)
+        violation(std::string("c16:") + flavour + ":restore-through-reordered-registry", fmt("{\"order\":\"%s\",\"index\":%zu,\"zone\":\"%s\",\"restored_is_error\":%d,\"by_id_is_error\":%d,\"by_name_is_error\":%d}",
+                  order == 0 ? "id-ascending" : order == 1 ? "id-descending" : "names-reversed", i, Db::name(reg[i]), r.isError(), byid.isError(), byname.isError()));
+      c.add("reordered_registry_restores");
+    }
+  }
+}
+
 int main(int argc, char** argv) {
   Args a = parse_args(argc, argv);
   Counters c;
@@ -81,6 +107,8 @@ int main(int argc, char** argv) {
   zones<ExtDb, BasicDb, ExtendedZoneManager<1>, BasicZoneManager<1>, ExtendedZoneManager<1>>(a, c, xm, bm, "extended");
   zones<BasicDb, ExtDb, BasicZoneManager<1>, ExtendedZoneManager<1>, BasicZoneManager<1>>(a, c, bm, xm, "basic");
   if (a.shard == 0) {
+    reorder_world<ExtDb, ExtendedZoneManager<1>>(c, "extended");
+    reorder_world<BasicDb, BasicZoneManager<1>>(c, "basic");
     // ---- manual zones
     std::vector<int> stds; for (int m = -960; m <= 960; m += 15) stds.push_back(m); for (int m : {1, -1, 32767, -32767, 16000}) stds.push_back(m);
     for (int sm : stds) for (int dm = -60; dm <= 120; dm += 15) {
